@@ -387,3 +387,8 @@ pub fn verif_may_invalidate<I: Interner>(
 ) -> bool {
     new.may_invalidate(interner, current)
 }
+
+/// Verification hook: re-export of the wrapper defined in the crate-private
+/// `aggregate` module.
+#[cfg(feature = "verif-hooks")]
+pub use aggregate::verif_merge_into_guidance;
